@@ -26,15 +26,18 @@ Proof.
   inversion H; subst. apply in_app_or in Hd as [Hd|[<-|[]]]; [left; exact Hd|right; reflexivity].
 Qed.
 
+Lemma delay_blocked_none_outer : forall s, delay_blocked s = None -> blocked_pos (s_outer s) = None.
+Proof. intros s H. unfold delay_blocked in H. destruct (blocked_pos (s_outer s)); [discriminate|reflexivity]. Qed.
+
 Lemma delay_step_in : forall sc dc dm r dc', delay_step sc dc dm = (r, dc') ->
   forall d, In d dc' -> In d dc \/ (In (fst d) (subs_of_op (ODelay dm)) /\ blocked_pos (s_outer (fst d)) = None).
 Proof.
   intros sc dc dm r dc' H d Hd. unfold delay_step in H. destruct dm as [|e|s e].
   - inversion H; subst. left; exact Hd.
   - inversion H; subst. left; exact Hd.
-  - destruct (blocked_pos (s_outer s)) as [q|] eqn:B; [inversion H; subst; left; exact Hd|].
+  - destruct (delay_blocked s) as [q|] eqn:B; [inversion H; subst; left; exact Hd|].
     destruct (dc_add_in _ _ _ _ _ _ H d Hd) as [Hin| ->]; [left; exact Hin|].
-    right. split; [left; reflexivity|exact B].
+    right. split; [left; reflexivity|exact (delay_blocked_none_outer _ B)].
 Qed.
 
 Lemma add_commits_in : forall cap b cs dc d, In d (add_commits cap b dc cs) ->
@@ -43,10 +46,10 @@ Proof.
   intros cap b cs. induction cs as [|[[s rt] rh] tl IH]; intros dc d Hd; simpl in Hd.
   - left; exact Hd.
   - apply IH in Hd as [Hd|[Hd Hb]].
-    + destruct (blocked_pos (s_outer s)) as [q|] eqn:B; [left; exact Hd|].
+    + destruct (delay_blocked s) as [q|] eqn:B; [left; exact Hd|].
       destruct (dc_add cap dc s (commit_end b rt rh)) as [r dc'] eqn:A. simpl in Hd.
       destruct (dc_add_in _ _ _ _ _ _ A d Hd) as [Hin| ->]; [left; exact Hin|].
-      right. split; [left; reflexivity|exact B].
+      right. split; [left; reflexivity|exact (delay_blocked_none_outer _ B)].
     + right. split; [right; exact Hd|exact Hb].
 Qed.
 
